@@ -97,9 +97,11 @@ PROPS = {
         "assumptions": [],
     },
     "C14": {
-        "units": [("combined", r"MaySuppressed")],
+        "units": [("combined", r"MaySuppressed|Suppressions")],
         "kani": [],
-        "decided": ["MaySuppressed::suppressed_id: silenced iff a suppression governs the line and lists the rule id or lists nothing; reports that suppression's node id"],
+        "decided": ["MaySuppressed::suppressed_id: silenced iff a suppression governs the line and lists the rule id or lists nothing; reports that suppression's node id",
+                    "Suppressions::collect: an ignore comment alone on its line registers for the NEXT line, a trailing one for its own line, with the ids parsed from its text; other nodes register nothing",
+                    "Suppressions::check_suppression: a finding is governed by the suppression registered for the line where it starts"],
         "not_decided": ["where comments sit (tree-sitter prev()/start_pos), comment detection by kind name, the unused-suppression bookkeeping inside CombinedScan::scan (HashMap/HashSet + dfs iterator), CLI records"],
         "assumptions": ["HashSet<String>::contains(&str) is set membership on the string content"],
     },
